@@ -50,6 +50,7 @@ type loopCtx struct {
 }
 
 type FuncExec struct {
+	selfTerm string            // literals: the constant naming the closure value being executed
 	initCopy bool              // copying into the sub-objects of an object being created by a composite literal
 	tagOf    map[string]string // provenance of assumptions (for "using" hints)
 	tailStmt ast.Stmt // tail-split: the statement whose branch states are handed over un-merged
@@ -140,6 +141,9 @@ func (fx *FuncExec) unsupported(pos token.Pos, format string, args ...interface{
 // H reads the current version of a heap component and records its use.
 func (fx *FuncExec) H(st *State, comp string) string {
 	fx.used[comp] = true
+	if tv, ok := st.vars[comp]; ok && (strings.HasPrefix(tv, "HP_") || strings.HasPrefix(tv, "HO_")) {
+		return tv // template state of a pred definition
+	}
 	if fx.isStructValuedComp(comp) {
 		// which sub-object belongs to which object never changes: one constant array
 		// for the whole function (sub-objects of objects created later are the
@@ -570,6 +574,9 @@ func (fx *FuncExec) specEnv(cur, old *State, pos token.Pos, where string) *SpecE
 		scope = fx.pkg.Types.Scope().Innermost(pos)
 	}
 	e := &SpecEnv{fx: fx, cur: cur, old: old, bound: map[string]Term{}, scope: scope, pos: pos, pkg: fx.pkg.Types, where: where}
+	if fx.selfTerm != "" {
+		e.bound["self"] = Term{S: fx.selfTerm, Sort: "Fn"}
+	}
 	for name, key := range fx.ghostVar {
 		if v, ok := cur.vars[key]; ok {
 			e.bound[name] = Term{S: v, Sort: fx.varSort[key], T: fx.varType[key]}
@@ -692,6 +699,9 @@ func (o *Obligation) RenderOpts(depth int, hideDefs bool) string {
 			}
 			if !(syms[g.key] || (g.chain && compMentioned[g.comp])) {
 				continue
+			}
+			if depth == -2 && g.chain && !tagMatches("alloc", o.Using) {
+				continue // hinted attempt: allocation-monotonicity links only on request ("using alloc")
 			}
 			if goalFam != nil {
 				// family attempt: heap facts only for the components (and
